@@ -99,9 +99,9 @@ package dastard
 // element (frame a, channel c) of a frame-major payload of b frames x n channels lies inside the payload
 // mul is multiplication, kept opaque in the function proofs (its facts come from the two lemmas below, which are proved with the definition)
 //@ define mul(a int, b int) int := a * b
-//@ lemma mulstep C03 C04: forall a int, n int :: {mul(a + 1, n)} mul(a + 1, n) == mul(a, n) + n
-//@ lemma mulzero C03 C04: forall n int :: {mul(0, n)} mul(0, n) == 0
-//@ lemma frameindex C03 C04: forall a int, b int, c int, n int :: 0 <= a && a < b && 0 <= c && c < n ==> c + mul(a, n) < mul(b, n) && c + mul(a, n) >= 0
+//@ lemma mulstep C03 C04 C19: forall a int, n int :: {mul(a + 1, n)} mul(a + 1, n) == mul(a, n) + n
+//@ lemma mulzero C03 C04 C19: forall n int :: {mul(0, n)} mul(0, n) == 0
+//@ lemma frameindex C03 C04 C19: forall a int, b int, c int, n int :: 0 <= a && a < b && 0 <= c && c < n ==> c + mul(a, n) < mul(b, n) && c + mul(a, n) >= 0
 
 //@ ufunc pnchan(p *packets.Packet) int
 //@ ufunc poffset(p *packets.Packet) int
